@@ -19,8 +19,9 @@ source "$1"
 
 def bash_ops(script_text, cwd):
     """The operations of a dry-run script exactly as bash parses them (the commands are replaced by printers)."""
-    sp = os.path.join(cwd, "script_trace.sh")
-    with open(sp, "wb") as f:
+    import tempfile
+    fd, sp = tempfile.mkstemp(prefix="script_trace_", suffix=".sh", dir=cwd)
+    with os.fdopen(fd, "wb") as f:
         f.write(script_text)
     r = subprocess.run(["bash", "-c", TRACER, "bash", sp], cwd=cwd, capture_output=True, timeout=60)
     ops = []
